@@ -34,6 +34,9 @@ type c02Ent struct {
 	Bytes h.Hex  // Kind 5 only
 	Chunk int    // max bytes per Read, >= 1
 	Limit int    // total bytes available, -1 = unbounded
+	// EOFData (with Limit >= 0): the read that delivers byte number Limit returns
+	// io.EOF together with the data (allowed by the io.Reader contract).
+	EOFData bool `json:",omitempty"`
 }
 
 // Stream returns the first n bytes of the stream (ignoring Limit).
@@ -102,16 +105,30 @@ func (r *c02Reader) Read(p []byte) (int, error) {
 	copy(p, s[r.off:])
 	r.off += n
 	r.reads++
+	if r.e.EOFData && r.e.Limit >= 0 && r.off == r.e.Limit {
+		return n, io.EOF
+	}
 	return n, nil
 }
 
 func c02GenEnt(t *rapid.T, label string) c02Ent {
-	return c02Ent{
+	e := c02Ent{
 		Kind:  rapid.IntRange(0, 4).Draw(t, label+"_kind"),
 		Seed:  rapid.Uint64().Draw(t, label+"_seed"),
 		Chunk: rapid.SampledFrom([]int{1, 5, 7, 16, 31, 32, 33, 64, 4096}).Draw(t, label+"_chunk"),
 		Limit: -1,
 	}
+	// the documented consumption is exactly 32 bytes (Z of the added-randomness
+	// construction): a source holding just that much, ending with data+EOF or
+	// with a separate EOF, is as good as an endless one
+	switch rapid.IntRange(0, 5).Draw(t, label+"_lim") {
+	case 0:
+		e.Limit = rapid.SampledFrom([]int{32, 32, 33, 64}).Draw(t, label+"_limit")
+		e.EOFData = true
+	case 1:
+		e.Limit = rapid.SampledFrom([]int{32, 33, 64}).Draw(t, label+"_limit")
+	}
+	return e
 }
 
 // ---------------------------------------------------------------- options
